@@ -128,10 +128,10 @@ fn strictly_increasing(ts: impl Iterator<Item = f64>) -> bool {
 
 /// Oracle evaluated after every transition.
 pub fn check(real: &ControlPoints, r: &RefCp) -> Option<(String, String)> {
-    if real.timing_points != r.t
-        || real.difficulty_points != r.d
-        || real.effect_points != r.e
-        || real.sample_points != r.s
+    if super::gen::lists_differ(&real.timing_points, &r.t)
+        || super::gen::lists_differ(&real.difficulty_points, &r.d)
+        || super::gen::lists_differ(&real.effect_points, &r.e)
+        || super::gen::lists_differ(&real.sample_points, &r.s)
     {
         return Some((
             "lists-differ".into(),
@@ -146,7 +146,7 @@ pub fn check(real: &ControlPoints, r: &RefCp) -> Option<(String, String)> {
         return Some(("not-strictly-ordered".into(), format!("{real:?}")));
     }
     for &t in &PROBES {
-        if real.timing_point_at(t) != r.timing_at(t) {
+        if super::gen::opts_differ(real.timing_point_at(t), r.timing_at(t)) {
             return Some((
                 "lookup-timing".into(),
                 format!(
@@ -156,7 +156,7 @@ pub fn check(real: &ControlPoints, r: &RefCp) -> Option<(String, String)> {
                 ),
             ));
         }
-        if real.sample_point_at(t) != r.sample_at(t) {
+        if super::gen::opts_differ(real.sample_point_at(t), r.sample_at(t)) {
             return Some((
                 "lookup-sample".into(),
                 format!(
@@ -166,7 +166,7 @@ pub fn check(real: &ControlPoints, r: &RefCp) -> Option<(String, String)> {
                 ),
             ));
         }
-        if real.difficulty_point_at(t) != r.difficulty_at(t) {
+        if super::gen::opts_differ(real.difficulty_point_at(t), r.difficulty_at(t)) {
             return Some((
                 "lookup-difficulty".into(),
                 format!(
@@ -176,7 +176,7 @@ pub fn check(real: &ControlPoints, r: &RefCp) -> Option<(String, String)> {
                 ),
             ));
         }
-        if real.effect_point_at(t) != r.effect_at(t) {
+        if super::gen::opts_differ(real.effect_point_at(t), r.effect_at(t)) {
             return Some((
                 "lookup-effect".into(),
                 format!(
